@@ -65,6 +65,9 @@ def apply_ref(r: Ref, op):
         r.bond_stereo = {k: d for k, d in r.bond_stereo.items() if not mentions(d, a)}
         r.atom_changes = {k: {c: d for c, d in v.items() if not mentions(d, a)} for k, v in r.atom_changes.items() if k != a}
         r.bond_changes = {k: {c: d for c, d in v.items() if not mentions(d, a)} for k, v in r.bond_changes.items() if a not in k}
+        # an entry without any descriptor left is no stereo change
+        r.atom_changes = {k: v for k, v in r.atom_changes.items() if v}
+        r.bond_changes = {k: v for k, v in r.bond_changes.items() if v}
         return "ok"
     if n == "set_atom_attribute":
         _, a, k, v = op
@@ -175,6 +178,8 @@ def apply_ref(r: Ref, op):
         if c not in r.atom_changes[a]:
             return "error"
         del r.atom_changes[a][c]
+        if not r.atom_changes[a]:
+            del r.atom_changes[a]  # an entry without any descriptor is no stereo change
         return "ok"
     if n == "delete_bond_stereo_change":
         _, b, c = op
@@ -187,6 +192,8 @@ def apply_ref(r: Ref, op):
         if c not in r.bond_changes[kb]:
             return "error"
         del r.bond_changes[kb][c]
+        if not r.bond_changes[kb]:
+            del r.bond_changes[kb]
         return "ok"
     if n == "relabel_inplace":
         m = op[1]
@@ -366,6 +373,8 @@ def op_instances(kind, universe, rng=None, ref=None):
             ops.append(("set_atom_stereo_change", {}))  # nothing given
             ops.append(("delete_atom_stereo_change", a, None))
             ops.append(("delete_atom_stereo_change", a, "formed"))
+            ops.append(("delete_atom_stereo_change", a, "broken"))
+            ops.append(("delete_atom_stereo_change", a, "fleeting"))
         for a in U:
             for b in U:
                 if a < b:
@@ -377,6 +386,8 @@ def op_instances(kind, universe, rng=None, ref=None):
                         ops.append(("set_bond_stereo_change", {"fleeting": d2}))
                     ops.append(("delete_bond_stereo_change", (a, b), None))
                     ops.append(("delete_bond_stereo_change", (a, b), "broken"))
+                    ops.append(("delete_bond_stereo_change", (a, b), "formed"))
+                    ops.append(("delete_bond_stereo_change", (a, b), "fleeting"))
     # in-place relabelling: a swap, a shift of one atom to a fresh id, a partial map
     if len(U) >= 2:
         ops.append(("relabel_inplace", {U[0]: U[1], U[1]: U[0]}))
